@@ -2,6 +2,9 @@
 // reported), one task still waiting for inputs and one rule being scanned.  The wait() stub is the
 // environment: one of the still-computing tasks reports through the real taskIsComplete.
 #include "eng.h"
+#ifndef VF_NEXT
+#define VF_NEXT 0
+#endif
 static BuildEngineImpl* g_impl; static HTask* g_T[2]; static RuleInfo* g_R[2]; static bool g_reported[2]; static int g_waits = 0; static int g_dbWrites = 0;
 static void report(int i) { g_reported[i] = true; ValueType v; v.reserve(2); v.push_back(nondet_u8()); g_impl->taskIsComplete(g_T[i], std::move(v), nondet_bool()); }
 // sequential harness: mutexes are no-ops in both the CBMC and the native build (the wait stub runs the
@@ -58,5 +61,19 @@ extern "C" void harness_cancel(void) {
   VF_ASSERT(g_R[0]->result.builtAt == B[0] && g_R[1]->result.builtAt == B[1] && W.result.builtAt == B[2] && S.result.builtAt == BS, "no result is marked as built in the cancelled build");
   VF_ASSERT(!g_R[0]->isComplete(impl) && !g_R[1]->isComplete(impl) && !W.isComplete(impl), "no cancelled rule counts as complete");
   VF_ASSERT(g_createTask == 0 && g_status[(int)Rule::StatusKind::IsComplete] == 0, "cancellation runs nothing and completes nothing");
+#if VF_NEXT
+  // X4: the NEXT build judges a rule that was merely being scanned when the build was cancelled exactly as scanRule judges any rule
+  // with that stored result (C01-O1's table): the cancelled build leaves no trace that makes it run (or not run) for another reason.
+  impl->currentEpoch = E + 1;
+  S.result.signature = CommandSignature(0);           // same signature as the rule's
+  int reasons0 = g_reasonCount, valid0 = g_validCalls;
+  bool r = impl->scanRule(S);
+  if (BS == 0) VF_ASSERT(r && (int)S.state == 2 && g_reason == (int)Rule::RunReason::NeverBuilt && g_reasonCount == reasons0 + 1, "never built => runs, reported as NeverBuilt");
+  else {
+    VF_ASSERT(g_validCalls == valid0 + 1, "its stored result is judged by asking the rule, once");
+    if (!g_validResult) VF_ASSERT(r && (int)S.state == 2 && g_reason == (int)Rule::RunReason::InvalidValue && g_reasonCount == reasons0 + 1, "invalid value => runs, reported as InvalidValue");
+    else VF_ASSERT(r && (int)S.state == 3 && g_reasonCount == reasons0, "a valid stored result without dependencies => does not run, nothing reported (no re-execution just because an earlier build was cancelled)");
+  }
+#endif
   VF_WITNESS();
 }
